@@ -162,11 +162,20 @@ def fast_cases(draw):
 
 @st.composite
 def gamma_cases(draw):
-    cs = draw(gen.continuum_and_spec(kinds=("combined", "pos", "abs"), min_ann=2, max_ann=3, budget=10 ** 6, max_per=14,
-                                     shapes=["random", "clusters", "sparse", "sparse"]))
+    if draw(st.integers(0, 2)) == 0:
+        # long sequential continua: the estimated best window is finite there (3 x >=30 or 4 x >=15 units)
+        # a positional term is needed: without it nothing is pruned and 16^4 candidates reach the solver
+        spec = draw(gen.dissim_specs(kinds=("combined", "combined", "pos"), equal_delta_only=True))
+        if spec["kind"] == "combined" and spec["alpha"] < 1:
+            spec["alpha"] = 1.0
+        cs = {"continuum": draw(gen.sequence_continua(labels=gen.labels_for(spec), sizes=((3, 30, 33), (4, 15, 16)))), "dissim": spec}
+    else:
+        cs = draw(gen.continuum_and_spec(kinds=("combined", "pos", "abs"), min_ann=2, max_ann=3, budget=10 ** 6, max_per=14,
+                                         shapes=["random", "clusters", "sparse", "sparse"]))
     # samplers need labelled, non-empty continua
-    cs["sampler"] = draw(st.sampled_from(["statistical", "shuffle"]))
-    cs["n_samples"] = draw(st.integers(1, 4))
+    # shuffled copies of long annotations overlap heavily: the exact algorithm needs minutes there
+    cs["sampler"] = "statistical" if cs["continuum"].get("shape") == "sequence" else draw(st.sampled_from(["statistical", "shuffle"]))
+    cs["n_samples"] = draw(st.integers(1, 2 if cs["continuum"].get("shape") == "sequence" else 4))
     cs["seed"] = draw(st.integers(0, 2 ** 31 - 1))
     return cs
 
